@@ -110,7 +110,7 @@ def run(ctx: Ctx) -> None:
     # ---- oracle + (b) classification correspondence ----
     N = ctx.n(160, 12000) * scale
     kcases, kraw = [], []
-    t_budget = time.time() + ctx.n(60, 3000)
+    t_budget = time.time() + ctx.n(60, 1200)
     for i in range(N):
         if time.time() > t_budget:
             ctx.extra['stopped_early_after'] = i
